@@ -109,7 +109,10 @@ class C07Bounded(Bounded):
                     check(kind, w, fn, f"whole document = {w!r}")
         # collections: order of collected errors == order strict loading meets them
         docs_sets = [[setp(RULE, ("level",), "bogus"), {"action": "nope"}], [{"action": "nope"}, setp(RULE, ("status",), 5)], [setp(CORR, ("correlation", "timespan"), ""), RULE],
-                     [{"action": "global", "level": "bogus"}, RULE], [setp(FILT, ("filter", "rules"), 5)]]
+                     [{"action": "global", "level": "bogus"}, RULE], [setp(FILT, ("filter", "rules"), 5)],
+                     # a filter that applies to a rule whose detection section is malformed (collecting mode keeps a placeholder detection)
+                     [setp(RULE, ("detection", "sel"), {"f|nope": 1}), FILT], [FILT, setp(RULE, ("detection", "condition"), None, delete=True)], [setp(RULE, ("detection",), "x"), setp(FILT, ("filter", "rules"), "any")],
+                     [setp(RULE, ("detection",), None, delete=True), FILT, RULE]]
         for di, ds in enumerate(docs_sets):
             ev += 1
             nontriv += 1
